@@ -250,6 +250,10 @@ class Interp:
             raise Unsupported("operator on symbolic string")
         if op not in BINOPS:
             raise Unsupported("operator %s on symbolic integers" % op.__name__)
+        if op in (ast.LShift, ast.RShift) and isinstance(b, SInt):
+            # a symbolic shift amount: usually determined by values the path has already pinned (a byte count); split
+            # over its (small) domain otherwise
+            b = self.ctx.concretize(b, limit=40)
         r = V.arith(BINOPS[op], a, b)
         if r is NotImplemented:
             raise TypeError("unsupported operand types for %s: %s and %s" % (BINOPS[op], type(a).__name__, type(b).__name__))
